@@ -159,15 +159,20 @@ def build(case, idx, work):
     if case.get("bases"):
         blist, main_inc = case["bases"]["list"], case["bases"]["main"]
     base_ffis = []
-    for k, b in enumerate(blist):
-        bf = cffi.FFI()
-        for j in b["inc"]:
-            bf.include(base_ffis[j])
-        bf.cdef(b["cdef"])
-        bname = "_c11_b%d_%d" % (idx, k)
-        bf.set_source(bname, None)
-        bf.emit_python_code(os.path.join(work, bname + ".py"))
-        base_ffis.append(bf)
+    f1 = cffi.FFI()
+    try:
+        for k, b in enumerate(blist):
+            bf = cffi.FFI()
+            for j in b["inc"]:
+                bf.include(base_ffis[j])
+            bf.cdef(b["cdef"])
+            bname = "_c11_b%d_%d" % (idx, k)
+            bf.set_source(bname, None)
+            bf.emit_python_code(os.path.join(work, bname + ".py"))
+            base_ffis.append(bf)
+    except Exception as e:
+        st["inline_error"] = "included ffi: " + type(e).__name__ + ": " + str(e)[:200]
+        return f1, None, st
     f1 = cffi.FFI()
     try:
         if case.get("pre"):
